@@ -15,7 +15,11 @@ impl Rng {
         z ^ (z >> 31)
     }
     pub fn below(&mut self, n: usize) -> usize {
-        if n == 0 { 0 } else { (self.next() % n as u64) as usize }
+        if n == 0 {
+            0
+        } else {
+            (self.next() % n as u64) as usize
+        }
     }
     pub fn chance(&mut self, num: u64, den: u64) -> bool {
         self.next() % den < num
@@ -51,7 +55,9 @@ pub fn unhex(s: &str) -> Option<Vec<u8>> {
     if s.len() % 2 != 0 {
         return None;
     }
-    (0..s.len() / 2).map(|i| u8::from_str_radix(&s[2 * i..2 * i + 2], 16).ok()).collect()
+    (0..s.len() / 2)
+        .map(|i| u8::from_str_radix(&s[2 * i..2 * i + 2], 16).ok())
+        .collect()
 }
 pub fn hexlist(l: &[Vec<u8>]) -> String {
     if l.is_empty() {
@@ -64,7 +70,10 @@ pub fn list<S: AsRef<str>>(l: &[S]) -> String {
     if l.is_empty() {
         ".".into()
     } else {
-        l.iter().map(|s| s.as_ref().to_string()).collect::<Vec<_>>().join(",")
+        l.iter()
+            .map(|s| s.as_ref().to_string())
+            .collect::<Vec<_>>()
+            .join(",")
     }
 }
 
@@ -102,16 +111,36 @@ pub struct Sink {
 }
 impl Sink {
     pub fn new() -> Self {
-        Sink { rows: vec![], stats: Default::default(), samples: vec![], notes: vec![] }
+        Sink {
+            rows: vec![],
+            stats: Default::default(),
+            samples: vec![],
+            notes: vec![],
+        }
     }
     pub fn corr(&mut self, case: &str, line: String, expect: String) {
-        self.rows.push(Row { case: case.into(), kind: "corr", line, expect });
+        self.rows.push(Row {
+            case: case.into(),
+            kind: "corr",
+            line,
+            expect,
+        });
     }
     pub fn spec(&mut self, case: &str, line: String) {
-        self.rows.push(Row { case: case.into(), kind: "spec", line, expect: "ok".into() });
+        self.rows.push(Row {
+            case: case.into(),
+            kind: "spec",
+            line,
+            expect: "ok".into(),
+        });
     }
     pub fn direct(&mut self, case: &str, verdict: String) {
-        self.rows.push(Row { case: case.into(), kind: "direct", line: verdict, expect: "ok".into() });
+        self.rows.push(Row {
+            case: case.into(),
+            kind: "direct",
+            line: verdict,
+            expect: "ok".into(),
+        });
     }
     pub fn count(&mut self, key: &str) {
         *self.stats.entry(key.to_string()).or_insert(0) += 1;
@@ -156,7 +185,10 @@ impl Sink {
 
 /// CPU time consumed by the calling thread, in seconds.
 pub fn thread_cpu() -> f64 {
-    let mut ts = libc::timespec { tv_sec: 0, tv_nsec: 0 };
+    let mut ts = libc::timespec {
+        tv_sec: 0,
+        tv_nsec: 0,
+    };
     unsafe {
         libc::clock_gettime(libc::CLOCK_THREAD_CPUTIME_ID, &mut ts);
     }
@@ -199,7 +231,13 @@ where
 /// (e.g. the code under test spins inside a single poll, which no async timeout can interrupt) gets
 /// `on_timeout` as its result; its worker thread is abandoned (the process exits when `main` returns)
 /// and replaced.
-pub fn run_pool_watchdog<J, R, F>(jobs: Vec<J>, threads: usize, limit: std::time::Duration, on_timeout: R, f: F) -> Vec<R>
+pub fn run_pool_watchdog<J, R, F>(
+    jobs: Vec<J>,
+    threads: usize,
+    limit: std::time::Duration,
+    on_timeout: R,
+    f: F,
+) -> Vec<R>
 where
     J: Send + 'static,
     R: Send + Clone + 'static,
@@ -241,7 +279,8 @@ where
     let n = jobs.len();
     let queue = Arc::new(Mutex::new(jobs.into_iter().enumerate().collect::<Vec<_>>()));
     queue.lock().unwrap().reverse();
-    let inflight: Arc<Mutex<HashMap<usize, (usize, Instant)>>> = Arc::new(Mutex::new(HashMap::new()));
+    let inflight: Arc<Mutex<HashMap<usize, (usize, Instant)>>> =
+        Arc::new(Mutex::new(HashMap::new()));
     let (tx, rx) = mpsc::channel::<(usize, usize, R)>();
     let f = Arc::new(f);
     let next_worker = std::cell::Cell::new(0usize);
@@ -316,7 +355,10 @@ where
             }
         }
     }
-    results.into_iter().map(|r| r.unwrap_or(Err(Stuck::Timeout))).collect()
+    results
+        .into_iter()
+        .map(|r| r.unwrap_or(Err(Stuck::Timeout)))
+        .collect()
 }
 
 // ---------------------------------------------------------------------------------------------
@@ -325,16 +367,35 @@ where
 // by an async timeout), the monitor writes a rows file that holds exactly that case as a violation
 // and ends the process, so that the check reports the failing input instead of timing out.
 
-static CURRENT_CASE: std::sync::Mutex<Option<(String, std::time::Instant)>> = std::sync::Mutex::new(None);
+static CURRENT_CASE: std::sync::Mutex<Option<(String, std::time::Instant)>> =
+    std::sync::Mutex::new(None);
 
 /// the op is about to hand `case` to the code under test
 pub fn progress(case: &str) {
-    *CURRENT_CASE.lock().unwrap() = Some((case.replace(['\t', '\n'], " "), std::time::Instant::now()));
+    *CURRENT_CASE.lock().unwrap() =
+        Some((case.replace(['\t', '\n'], " "), std::time::Instant::now()));
 }
 
 /// the op is not inside the code under test (generating, asking the model, writing)
 pub fn progress_idle() {
     *CURRENT_CASE.lock().unwrap() = None;
+}
+
+/// a panic escaped the op (the code under test panicked outside any per-case `catch_unwind`): report
+/// the case that was running as the failing input; returns false if no case was registered
+pub fn report_escaped_panic(opts: &Opts, op: &str) -> bool {
+    let Some((case, _)) = CURRENT_CASE.lock().map(|g| g.clone()).unwrap_or(None) else {
+        return false;
+    };
+    let _ = fs::create_dir_all(&opts.out);
+    if let Ok(mut f) = fs::File::create(opts.out.join(format!("{op}.rows"))) {
+        let _ = writeln!(f, "{case}\tdirect\tviolation panic-in-code-under-test\tok");
+    }
+    if let Ok(mut f) = fs::File::create(opts.out.join(format!("{op}.stats"))) {
+        let _ = writeln!(f, "stat\tpanic_escaped\t1");
+        let _ = writeln!(f, "note\tthe code under test panicked on the case above; all other rows of this run were discarded");
+    }
+    true
 }
 
 pub fn start_monitor(opts: &Opts, op: &str, limit: std::time::Duration) {
